@@ -66,6 +66,18 @@ def dispatchers(prog: Program) -> List[DispatcherRoles]:
     return out
 
 
+def dispatcher_program(prog: Program) -> Program:
+    """The program with private same-module helpers inlined into the dispatcher's role functions (dispatch, the three
+    per-element handlers, __init__), so that `_parse_request(text)` or `_apply_error_handlers(...)` extracted from them is
+    still seen as part of them.  The role functions themselves are never inlined into each other."""
+    from ..inline import inlined_program
+    roles = dispatchers(prog)
+    callers: List[str] = []
+    for r in roles:
+        callers += [f.qualname for f in r.chain] + [r.init.qualname]
+    return inlined_program(prog, callers)
+
+
 def _single_self_callee(prog: Program, f: FuncInfo, ci: ClassInfo, what: str) -> FuncInfo:
     ty = types_of(prog)
     sc = FuncScope(f, ty)
